@@ -109,7 +109,9 @@ pub fn explore(roots: &[(String, Envelope)], ops: &[Op], depth: usize, on_state:
         seen.insert(state_key(root)); st.states += 1; st.per_depth[0] += 1;
         let describe = |path: &[u16]| -> String { format!("root={} ops=[{}]", rname, path.iter().map(|i| ops[*i as usize].name.as_str()).collect::<Vec<_>>().join(" ; ")) };
         on_state(root, &|| describe(&[]), &mut acc);
-        for d in 0..depth {
+        // the 24-assertion root is explored one level less deep (each of its states costs about ten times a small one)
+        let depth_r = if rname.starts_with("wide-") { depth.saturating_sub(1).max(1) } else { depth };
+        for d in 0..depth_r {
             let mut next = vec![];
             for (e, path) in &frontier {
                 let before = if imm_sig.is_some() { Some(e.to_cbor_data()) } else { None };
@@ -123,7 +125,7 @@ pub fn explore(roots: &[(String, Envelope)], ops: &[Op], depth: usize, on_state:
                         Ok(None) => { st.refused += 1; acc.outcome(format!("{}:refused", o.name)); }
                         Ok(Some(r)) => {
                             let k = state_key(&r);
-                            if d + 1 == depth { st.sequences += 1 }
+                            if d + 1 == depth_r { st.sequences += 1 }
                             if seen.insert(k) {
                                 st.states += 1; st.per_depth[d + 1] += 1; st.max_depth = d + 1;
                                 acc.outcome(format!("{}:new-state", o.name));
@@ -163,7 +165,11 @@ pub fn rich_roots() -> Vec<(String, Envelope)> {
     let a = a.add_assertion("k1", "v1").add_assertion("k2", 2).add_assertion(known_values::NOTE, "n");
     let mut b = Envelope::new("inner").add_assertion("q", "r").wrap_envelope();
     for (_, x) in p.items.iter().skip(1).take(5) { b = b.add_assertion_envelope(x.clone()).unwrap() }
-    vec![("rich-9-assertions".into(), a), ("wrapped-with-5-assertions".into(), b)]
+    // 24 plain assertions + the pool's first two: the array head of the serialisation changes width when the search adds or removes one
+    let mut c = Envelope::new("wide24");
+    for i in 0..22 { c = c.add_assertion(format!("p{i:03}"), i) }
+    for (_, x) in p.items.iter().take(2) { c = c.add_assertion_envelope(x.clone()).unwrap() }
+    vec![("rich-9-assertions".into(), a), ("wrapped-with-5-assertions".into(), b), ("wide-24-assertions".into(), c)]
 }
 pub fn roots_from(models: &[crate::refmodel::tree::M]) -> Vec<(String, Envelope)> { let mut v: Vec<(String, Envelope)> = models.iter().map(|m| (m.show(), bind::build_route(m, if m.encode().is_some() && contains_elided(m) { bind::Route::Decode } else { bind::Route::Envelopes(0) }))).collect(); v.extend(rich_roots()); v }
 fn contains_elided(m: &crate::refmodel::tree::M) -> bool { use crate::refmodel::tree::M; match m { M::Obscured(..) => true, M::Wrapped(e) => contains_elided(e), M::Assertion(p, o) => contains_elided(p) || contains_elided(o), M::Node(s, a) => contains_elided(s) || a.iter().any(contains_elided), _ => false } }
